@@ -280,9 +280,13 @@ func TestVerifC27Calibrate(t *testing.T) {
 				if len(out) == 0 {
 					continue
 				}
-				// the recorded defect is the only accepted outcome
+				// the recorded defects are the only accepted outcomes
 				if len(out) == 1 && out[0] == "finding C27-rolled-back-changes-reported" {
 					counts["finding"]++
+					continue
+				}
+				if len(out) == 1 && out[0] == "finding C27-column-names-of-previous-definition" {
+					counts["finding-names"]++
 					continue
 				}
 				bad++
@@ -293,5 +297,8 @@ func TestVerifC27Calibrate(t *testing.T) {
 		}
 	}
 	os.Unsetenv("VERIF_REPLAY")
-	fmt.Printf("CAL runs=%v disagreements=%d\n", counts, bad)
+	if verifC27ModelOff > 0 {
+		t.Errorf("(*DB).ColumnNames answered differently from its model %d times", verifC27ModelOff)
+	}
+	fmt.Printf("CAL runs=%v disagreements=%d column-name answers unlike the model=%d\n", counts, bad, verifC27ModelOff)
 }
